@@ -16,7 +16,7 @@ func init() {
 		run:       runC04,
 		decided: "R1 the hop-by-hop table contains the RFC 7230 set and both directions delete the Connection-named tokens before, and the table entries in, a loop over that same table; " +
 			"R2 inside the retry loop URL and header of the outgoing request are re-derived from pristine snapshots in every iteration before anything that mutates them; " +
-			"R3 the buffered body is rewound in every iteration before the forward call, and buffering is decided by exactly {more than one host, non-zero try duration}; " +
+			"R3 the buffered body is rewound in every iteration before the forward call, and buffering is decided by exactly {non-zero try duration}; " +
 			"R4 the backend status is written unmodified, the Trailer announcement precedes WriteHeader, the body copy precedes the trailer copy; " +
 			"R5 the decision table of createUpstreamRequest (Request.WithContext modelled as the shallow copy it is; 48 cases over Connection header, prior X-Forwarded-For, parsable address, empty body; other headers unknown): the client's own header map is never modified, no hop-by-hop header and none named in Connection is forwarded while end-to-end headers are, X-Forwarded-For is the prior values followed by the client address, the body is nil exactly for an empty body. Since round 4: R6 configured header changes: parseBlock records every header_upstream/header_downstream line (repeated +Field lines all kept, per direction), mutateHeadersByRules appends / deletes / sets with one expansion. Since round 5: R2/R3 are decided along the proxy traces (Proxy.ServeHTTP evaluated with scripted backends: every attempt starts from the pristine URL, header and rewound body). R7 header rules from NewHost to their application in both directions.",
 		notDecided: "byte-for-byte equality of bodies; path joining arithmetic (singleJoiningSlash); header multiset equality — runtime relations.",
@@ -397,7 +397,7 @@ func c04R3(h H) { bodyReplayRule(h, "R3") }
 // (bodyReplayPatterns) is kept for reference and no longer registered.
 func bodyReplayRule(h H, rule string) {
 	r := h.r
-	r.Rule(rule, "body replay along the proxy's traces (E10): every attempt on a buffered body follows a rewind; the body is buffered exactly when the upstream has more than one backend and retries are enabled (scripts with one and two backends, try_duration 0 and 100), under no further condition", 2)
+	r.Rule(rule, "body replay along the proxy's traces (E10): every attempt on a buffered body follows a rewind; the body is buffered exactly when retries are enabled (a single backend is retried too, after its fail_timeout) (scripts with one and two backends, try_duration 0 and 100), under no further condition", 2)
 	t := proxyTraces(h)
 	var pos token.Pos
 	if fn := h.p.Func(pxPkg, "Proxy.ServeHTTP"); fn != nil {
@@ -405,7 +405,7 @@ func bodyReplayRule(h H, rule string) {
 	}
 	n := sprintf("%d scripts evaluated", t.n)
 	r.Check(t.body == "" && t.other == "", rule, "proxy.Proxy.ServeHTTP/retry-loop/rewind-before-forward", pos, "each attempt starts with the buffered body rewound to its beginning", n, t.body, t.other)
-	r.Check(t.buffer == "" && t.other == "", rule, "proxy.Proxy.ServeHTTP/buffering-condition", pos, "the request body is buffered for replay exactly when there is more than one host and retries are enabled (no further condition such as a known Content-Length)", n, t.buffer, t.other)
+	r.Check(t.buffer == "" && t.other == "", rule, "proxy.Proxy.ServeHTTP/buffering-condition", pos, "the request body is buffered for replay exactly when retries are enabled (no further condition such as a known Content-Length or the number of hosts: a single host is retried after its fail_timeout)", n, t.buffer, t.other)
 }
 
 func bodyReplayPatterns(h H, rule string) {
@@ -535,7 +535,7 @@ func bodyReplayPatterns(h H, rule string) {
 			}
 		}
 		r.Check(hosts && dur && len(extra) == 0, rule, "proxy.Proxy.ServeHTTP/buffering-condition", c.Pos(),
-			"the request body is buffered for replay exactly when there is more than one host and retries are enabled (no further condition such as a known Content-Length)", append([]string{sprintf("hosts>1:%v tryDuration!=0:%v", hosts, dur)}, extra...)...)
+			"the request body is buffered for replay exactly when retries are enabled (no further condition such as a known Content-Length or the number of hosts: a single host is retried after its fail_timeout)", append([]string{sprintf("hosts>1:%v tryDuration!=0:%v", hosts, dur)}, extra...)...)
 	}
 }
 
